@@ -18,6 +18,9 @@ pub struct Isaac {
     /// coverage of the two indirections
     pub cov_ind1: [bool; N],
     pub cov_ind2: [bool; N],
+    /// value coincidences inside the steps of the blocks generated so far (step, what, value): each
+    /// has probability about 2^-32 per step; drained by the rare-event search
+    pub internal: Vec<(usize, &'static str, u32)>,
 }
 
 fn mix32(v: &mut [u32; 8]) {
@@ -88,7 +91,7 @@ impl Isaac {
                 i += 8;
             }
         }
-        Isaac { mm, aa: 0, bb: 0, cc: 0, randrsl: [0; N], randcnt: 0, cov_ind1: [false; N], cov_ind2: [false; N] }
+        Isaac { mm, aa: 0, bb: 0, cc: 0, randrsl: [0; N], randcnt: 0, cov_ind1: [false; N], cov_ind2: [false; N], internal: Vec::new() }
     }
 
     /// `from_seed`: the seed's 8 little-endian words fill the first 8 slots, zeros elsewhere,
@@ -135,12 +138,33 @@ impl Isaac {
             self.aa = self.mm[(i + 128) % N].wrapping_add(self.aa);
             let i1 = ((x >> 2) as usize) % N;
             self.cov_ind1[i1] = true;
-            let y = self.mm[i1].wrapping_add(self.aa).wrapping_add(self.bb);
+            let l1 = self.mm[i1];
+            let y = l1.wrapping_add(self.aa).wrapping_add(self.bb);
             self.mm[i] = y;
             let i2 = ((y >> 10) as usize) % N;
             self.cov_ind2[i2] = true;
-            self.bb = self.mm[i2].wrapping_add(x);
+            let l2 = self.mm[i2];
+            self.bb = l2.wrapping_add(x);
             self.randrsl[i] = self.bb;
+            // value coincidences a value-keyed shortcut could single out (each about 2^-32 per step)
+            if l2 == x && i2 != i {
+                self.internal.push((i, "step whose second looked-up word equals the old word of the slot being rewritten, in another slot", x));
+            }
+            if l1 == x && i1 != i {
+                self.internal.push((i, "step whose first looked-up word equals the old word of the slot being rewritten, in another slot", x));
+            }
+            if y == x {
+                self.internal.push((i, "step that rewrites its slot with the same word", x));
+            }
+            if l1 == l2 && i1 != i2 {
+                self.internal.push((i, "step whose two looked-up words are equal in different slots", l1));
+            }
+            if l1 == 0 || l2 == 0 {
+                self.internal.push((i, "step with a zero looked-up word", x));
+            }
+            if self.aa == 0 || y == 0 {
+                self.internal.push((i, "step with a zero accumulator or a zero new table word", x));
+            }
         }
     }
 
